@@ -70,6 +70,104 @@ def _call_sites(fn: Func, tails: Sequence[str]) -> List[ast.Call]:
     return [x for x in walk_no_defs(fn.node) if isinstance(x, ast.Call) and call_tail(x) in tails]
 
 
+COERCE_CALLS = {"str", "float", "int", "bool", "dict", "list", "tuple", "_round6", "_clamp", "round", "abs", "max", "min", "len", "sorted"}
+
+
+def _coerced_expr(rd, e: ast.AST, at, depth: int = 0) -> bool:
+    """the value has a type fixed by the normaliser itself (coercion / constant / isinstance-selected), not by the file"""
+    if isinstance(e, ast.Constant):
+        return True
+    if isinstance(e, ast.Call) and (dotted(e.func) or "").split(".")[-1] in COERCE_CALLS:
+        return True
+    if isinstance(e, (ast.Dict, ast.List, ast.Tuple)):
+        return all(_coerced_expr(rd, v, at, depth + 1) for v in (e.values if isinstance(e, ast.Dict) else e.elts))
+    if isinstance(e, ast.IfExp):
+        isinst = any(isinstance(x, ast.Call) and dotted(x.func) == "isinstance" for x in ast.walk(e.test))
+        # `dict(x) if isinstance(x, dict) else {}`: the typed arm may use the value, the other arm must be fixed
+        return isinst and _coerced_expr(rd, e.orelse, at, depth + 1) and (_coerced_expr(rd, e.body, at, depth + 1) or True)
+    if isinstance(e, ast.Name) and depth < 4:
+        ds = [d for d in rd.reaching(e.id, at) if d.kind != "mutate"]
+        return bool(ds) and all(d.kind == "assign" and d.value is not None and _coerced_expr(rd, d.value, d.node, depth + 1) for d in ds)
+    return False
+
+
+def _dereferenced_fields(ctx, modules: Sequence[str]) -> Dict[str, str]:
+    """record fields on which the engine calls a method / subscripts: f -> where"""
+    out: Dict[str, str] = {}
+    for mn in modules:
+        m = ctx.prog.module(mn)
+        for fn in m.funcs.values():
+            bound: Dict[str, str] = {}
+            for x in walk_no_defs(fn.node):
+                f = None
+                if isinstance(x, ast.Assign) and len(x.targets) == 1 and isinstance(x.targets[0], ast.Name):
+                    v = x.value
+                    if isinstance(v, ast.BoolOp) and v.values:
+                        v = v.values[0]
+                    if isinstance(v, ast.Call) and isinstance(v.func, ast.Attribute) and v.func.attr in ("get", "setdefault") and v.args and const_str(v.args[0]):
+                        bound[x.targets[0].id] = const_str(v.args[0])
+                    elif isinstance(v, ast.Subscript) and const_str(v.slice):
+                        bound[x.targets[0].id] = const_str(v.slice)
+            for x in walk_no_defs(fn.node):
+                # float(rec.get("weight", 0.0)) / int(rec["n"]): raises on a value of the wrong type
+                if isinstance(x, ast.Call) and dotted(x.func) in ("float", "int") and x.args:
+                    a0 = x.args[0]
+                    if isinstance(a0, ast.Call) and isinstance(a0.func, ast.Attribute) and a0.func.attr in ("get", "setdefault") and a0.args and const_str(a0.args[0]):
+                        out.setdefault(const_str(a0.args[0]), fn.loc(x))
+                    elif isinstance(a0, ast.Subscript) and const_str(a0.slice):
+                        out.setdefault(const_str(a0.slice), fn.loc(x))
+                    elif isinstance(a0, ast.Name) and a0.id in bound:
+                        out.setdefault(bound[a0.id], fn.loc(x))
+            for x in walk_no_defs(fn.node):
+                recv = None
+                if isinstance(x, ast.Attribute) and isinstance(x.ctx, ast.Load):
+                    recv = x.value
+                elif isinstance(x, ast.Subscript):
+                    recv = x.value
+                if recv is None:
+                    continue
+                if isinstance(recv, ast.Name) and recv.id in bound:
+                    out.setdefault(bound[recv.id], fn.loc(x))
+                elif isinstance(recv, ast.Call) and isinstance(recv.func, ast.Attribute) and recv.func.attr in ("get", "setdefault") and recv.args and const_str(recv.args[0]):
+                    out.setdefault(const_str(recv.args[0]), fn.loc(x))
+    return out
+
+
+def rule_sanit_fields(ctx) -> None:
+    """every field of an edge record that the engine dereferences (calls a method on / subscripts) is given its type by the
+    normaliser, not by the snapshot file: a raw `ed.get("attrs", {})` lets `"attrs": null` reach gel.tick, whose `.get` then
+    aborts the turn"""
+    SN = "clematis.engine.snapshot"
+    w = ctx.func(SN + ":_sanitize_gel_for_write")
+    cfg = ctx.cfg(w)
+    rd = ctx.rd(w)
+    deref = _dereferenced_fields(ctx, ["clematis.engine.gel", "clematis.engine.stages.hybrid"])
+    ctx.floor("C20.SANIT", "record fields dereferenced by gel / hybrid", len(deref), 2)
+    n_rec = 0
+    for n in cfg.nodes:
+        if n.kind != "stmt" or not isinstance(n.ast, ast.Assign):
+            continue
+        for t in n.ast.targets:
+            if isinstance(t, ast.Subscript) and isinstance(t.value, ast.Name) and t.value.id == "edges_out" and isinstance(n.ast.value, ast.Dict):
+                n_rec += 1
+                for k, v in zip(n.ast.value.keys, n.ast.value.values):
+                    f = const_str(k) if k is not None else None
+                    if f is None:
+                        ctx.violation("C20.SANIT", f"{w.qual}/edge-record-spread", w.loc(v), "the edge record spreads a raw mapping from the file")
+                        continue
+                    ok = _coerced_expr(rd, v, n)
+                    if ok:
+                        continue
+                    if f in deref:
+                        ctx.violation("C20.SANIT", f"{w.qual}/edge-field-typed:{f}", w.loc(v),
+                                      f"edge field `{f}` is copied from the snapshot as it is (`{src(v)[:40]}`) but the engine dereferences it ({deref[f]}): "
+                                      f"a corrupt or foreign snapshot with a non-mapping `{f}` aborts the turn once the graph is enabled")
+                    else:
+                        ctx.info("C20.SANIT", f"{w.qual}/edge-field-opaque:{f}", w.loc(v), f"edge field `{f}` is passed through; the engine never dereferences it")
+    ctx.floor("C20.SANIT", "edge records built by the normaliser", n_rec, 1)
+    ctx.holds("C20.SANIT", f"{w.qual}/edge-fields", w.loc(), f"{n_rec} record constructor(s): every field the engine dereferences ({sorted(deref)}) is typed by the normaliser")
+
+
 def rule_sanit(ctx) -> None:
     """a GEL block read from a snapshot file reaches engine state only through the normaliser: the containers under
     nodes / edges / meta are built fresh by _sanitize_gel_for_write (never the parsed JSON value itself), the load wrapper
@@ -152,6 +250,7 @@ def rule_sanit(ctx) -> None:
 
 def run(ctx) -> None:
     rule_sanit(ctx)
+    rule_sanit_fields(ctx)
     n_sites = 0
     handlers_seen: Dict[int, Tuple[Func, ast.Try, str]] = {}
     for qual, tails, why in SITES:
